@@ -743,6 +743,13 @@ func c14AddImport(c *Ctx) {
 			}
 		}
 		recImports, recUsed := false, false
+		// recorded by a private helper that returns the name it was given (return tc.register(path, name))
+		if call, isCall := v.(*ssa.Call); isCall {
+			if _, ni, okH := importRegisterHelper(call.Common().StaticCallee()); okH && ni < len(call.Common().Args) {
+				recImports, recUsed = true, true
+				v = call.Common().Args[ni]
+			}
+		}
 		for _, b := range fn.Blocks {
 			for _, in := range b.Instrs {
 				mu, ok := in.(*ssa.MapUpdate)
